@@ -1377,23 +1377,56 @@ func buildStubs() map[string]stubFn {
 	m["(time.Duration).Seconds"] = func(ex *Exec, c *frame, fn *ssa.Function, a []Value) Value {
 		return ex.tc.DurSeconds(a[0].(*Term))
 	}
-	// timers never fire in sequential executions (the virtual clock only advances when the harness says so);
-	// a select on timer.C therefore falls through to its other cases
-	mkTimer := func(ex *Exec) Value {
+	// virtual timers: registered with their firing instant; when a sequential execution would block on a select or a
+	// receive, the earliest active timer fires (the virtual clock jumps to its instant)
+	mkTimer := func(ex *Exec, d *Term, fn Value) Value {
 		tt := ex.eng.namedType("time", "Timer")
 		p := new(Value)
 		z := ex.zero(tt).(StructV)
-		z[0] = &ChanV{cap: 1, elemT: ex.eng.namedType("time", "Time")}
+		ch := &ChanV{cap: 1, elemT: ex.eng.namedType("time", "Time")}
+		z[0] = ch
 		*p = z
+		ex.timers = append(ex.timers, &vTimer{at: ex.tc.Bin(OAdd, ex.now(), d), ch: ch, fn: fn, active: true, ptr: p})
 		return p
 	}
-	m["time.NewTimer"] = func(ex *Exec, c *frame, fn *ssa.Function, a []Value) Value { return mkTimer(ex) }
-	m["time.AfterFunc"] = func(ex *Exec, c *frame, fn *ssa.Function, a []Value) Value { return mkTimer(ex) }
-	m["time.After"] = func(ex *Exec, c *frame, fn *ssa.Function, a []Value) Value {
-		return &ChanV{cap: 1, elemT: ex.eng.namedType("time", "Time")}
+	findTimer := func(ex *Exec, v Value) *vTimer {
+		p, _ := v.(*Value)
+		for _, t := range ex.timers {
+			if t.ptr == p {
+				return t
+			}
+		}
+		return nil
 	}
-	m["(*time.Timer).Stop"] = func(ex *Exec, c *frame, fn *ssa.Function, a []Value) Value { return ex.tc.False }
-	m["(*time.Timer).Reset"] = func(ex *Exec, c *frame, fn *ssa.Function, a []Value) Value { return ex.tc.False }
+	m["time.NewTimer"] = func(ex *Exec, c *frame, fn *ssa.Function, a []Value) Value { return mkTimer(ex, a[0].(*Term), nil) }
+	m["time.AfterFunc"] = func(ex *Exec, c *frame, fn *ssa.Function, a []Value) Value { return mkTimer(ex, a[0].(*Term), a[1]) }
+	m["time.After"] = func(ex *Exec, c *frame, fn *ssa.Function, a []Value) Value {
+		p := mkTimer(ex, a[0].(*Term), nil).(*Value)
+		return (*p).(StructV)[0]
+	}
+	m["(*time.Timer).Stop"] = func(ex *Exec, c *frame, fn *ssa.Function, a []Value) Value {
+		t := findTimer(ex, a[0])
+		if t == nil {
+			return ex.tc.False
+		}
+		was := t.active
+		t.active = false
+		t.ch.buf = nil
+		ex.effect()
+		return ex.tc.Bool(was)
+	}
+	m["(*time.Timer).Reset"] = func(ex *Exec, c *frame, fn *ssa.Function, a []Value) Value {
+		t := findTimer(ex, a[0])
+		if t == nil {
+			return ex.tc.False
+		}
+		was := t.active
+		t.active = true
+		t.at = ex.tc.Bin(OAdd, ex.now(), a[1].(*Term))
+		t.ch.buf = nil
+		ex.effect()
+		return ex.tc.Bool(was)
+	}
 	m["time.Sleep"] = func(ex *Exec, c *frame, fn *ssa.Function, a []Value) Value {
 		ex.advanceClock(a[0].(*Term))
 		return nil
@@ -1890,4 +1923,39 @@ func (ex *Exec) divExact(t *Term, k uint64) (*Term, bool) {
 		}
 	}
 	return nil, false
+}
+
+type vTimer struct {
+	at     *Term
+	ch     *ChanV
+	fn     Value
+	active bool
+	ptr    *Value
+}
+
+// fireNextTimer fires the earliest active virtual timer; false if there is none.
+func (ex *Exec) fireNextTimer(fr *frame) bool {
+	var best *vTimer
+	for _, t := range ex.timers {
+		if !t.active {
+			continue
+		}
+		if best == nil || ex.branch(ex.tc.Cmp(OSlt, t.at, best.at)) {
+			best = t
+		}
+	}
+	if best == nil {
+		return false
+	}
+	ex.effect()
+	best.active = false
+	if ex.branch(ex.tc.Cmp(OSlt, ex.now(), best.at)) {
+		ex.clock = best.at
+	}
+	if best.fn != nil {
+		ex.call(fr, best.fn, nil, 0)
+	} else if len(best.ch.buf) < best.ch.cap {
+		best.ch.buf = append(best.ch.buf, StructV{ex.tc.Const(64, 0), ex.now(), (*Value)(nil)})
+	}
+	return true
 }
